@@ -773,7 +773,11 @@ impl Builtins {
                     }
                     elems.push(Rc::new(P(Int(num))));
                     pos_list.push(pos.clone());
-                    num += step;
+                    // Stepping past the largest integer means we are done.
+                    num = match num.checked_add(step) {
+                        Some(n) => n,
+                        None => break,
+                    };
                 }
             }
             _ => {
